@@ -12,9 +12,25 @@ def seeded(seed, n):
     for _ in range(n):
         cnt = r.choice([0, 1, 2, 3, 7, 20, 60, 200])
         grid = r.choice([3, 5, 12, 40])
-        mode = r.choice(["any", "collinear-runs", "loop", "repeats"])
+        mode = r.choice(["any", "collinear-runs", "loop", "repeats", "zigzag", "spiral"])
         pts = []
         x, y = r.randrange(grid), r.randrange(grid)
+        if mode in ("zigzag", "spiral"):
+            # shapes whose farthest point always lies near one end of the pending interval: the interval stack grows as
+            # deep as the line is long (a decaying zig-zag, an inward spiral)
+            import math
+            cnt = r.choice([18, 19, 33, 34, 35, 64, 65, 130, 200])
+            big = 1 << r.choice([8, 12, 16])
+            for k in range(cnt):
+                if mode == "zigzag":
+                    amp = big >> min(k // 2, 30) if r.randrange(2) else max(1, big // (k + 1))
+                    pts.append([k * 3, amp if k % 2 else -amp])
+                else:
+                    rad = big * (cnt - k) / cnt
+                    pts.append([int(rad * math.cos(k * 0.9)), int(rad * math.sin(k * 0.9))])
+            if r.randrange(2):
+                pts.reverse()
+            cnt = 0
         for k in range(cnt):
             if mode == "collinear-runs" and k % 5:
                 x, y = min(grid * 4, x + 1), y
